@@ -4,7 +4,8 @@ package main
 //
 //   reexports  every top-level `Name = pkg.Name` of gozod.go (var or type alias) whose right-hand side lives
 //              in internal/issues or internal/utils — what `gozod.FlattenError` etc. ARE;
-//   wrappers   every function of internal/issues/errors.go whose body is a single `return f(args…)` — the thin
+//   wrappers   every function of internal/issues/errors.go whose body is a single `return f(args…)` (optionally
+//              after a guard `if x == nil { … }`, recorded) — the thin
 //              entry points (FormatError, TreeifyError, FlattenError, FlattenErrorWithFormatter, ToDotPath,
 //              PrettifyError) with the callee and the printed arguments;
 //   errorMethod  the statements of (*ZodError).Error, printed, one per entry.
@@ -127,6 +128,7 @@ func runGen(path string) error {
 	type wrap struct {
 		name, callee string
 		args         []string
+		guard        string
 	}
 	var wraps []wrap
 	var errorStmts []string
@@ -146,10 +148,20 @@ func runGen(path string) error {
 				errorStmts = append(errorStmts, show(fset, st))
 			}
 		}
-		if len(fd.Body.List) != 1 {
+		// a thin entry point: one `return callee(args…)`, optionally preceded by a guard for a nil error
+		// (`if zodErr == nil { … }`), whose text is recorded
+		body := fd.Body.List
+		guard := ""
+		if len(body) == 2 {
+			if ifs, isIf := body[0].(*ast.IfStmt); isIf && ifs.Init == nil && ifs.Else == nil && strings.HasSuffix(show(fset, ifs.Cond), "== nil") {
+				guard = show(fset, ifs)
+				body = body[1:]
+			}
+		}
+		if len(body) != 1 {
 			continue
 		}
-		ret, ok := fd.Body.List[0].(*ast.ReturnStmt)
+		ret, ok := body[0].(*ast.ReturnStmt)
 		if !ok || len(ret.Results) != 1 {
 			continue
 		}
@@ -157,7 +169,7 @@ func runGen(path string) error {
 		if !ok {
 			continue
 		}
-		w := wrap{name: name, callee: show(fset, call.Fun)}
+		w := wrap{name: name, callee: show(fset, call.Fun), guard: guard}
 		for _, a := range call.Args {
 			w.args = append(w.args, show(fset, a))
 		}
@@ -182,8 +194,8 @@ func runGen(path string) error {
 		fmt.Fprintf(&b, "  (%s, %s, %s, %s)%s\n", leanStr(r.name), leanStr(r.pkg), leanStr(r.target), leanStr(r.kind), sep)
 	}
 	b.WriteString("]\n\n")
-	b.WriteString("/-- (function, callee, arguments) of every function of internal/issues/errors.go whose body is one `return callee(args…)` -/\n")
-	b.WriteString("def wrappers : List (String × String × List String) := [\n")
+	b.WriteString("/-- (function, callee, arguments, nil guard) of every function of internal/issues/errors.go whose body is one\n    `return callee(args…)`, optionally after an `if … == nil { … }` (its text; \"\" when there is none) -/\n")
+	b.WriteString("def wrappers : List (String × String × List String × String) := [\n")
 	for i, w := range wraps {
 		sep := ","
 		if i == len(wraps)-1 {
@@ -193,7 +205,7 @@ func runGen(path string) error {
 		for j, a := range w.args {
 			qa[j] = leanStr(a)
 		}
-		fmt.Fprintf(&b, "  (%s, %s, [%s])%s\n", leanStr(w.name), leanStr(w.callee), strings.Join(qa, ", "), sep)
+		fmt.Fprintf(&b, "  (%s, %s, [%s], %s)%s\n", leanStr(w.name), leanStr(w.callee), strings.Join(qa, ", "), leanStr(w.guard), sep)
 	}
 	b.WriteString("]\n\n")
 	b.WriteString("/-- the statements of `func (e *ZodError) Error() string`, printed -/\n")
